@@ -618,8 +618,10 @@ func (self *Value) updateByteLen(originLen int, address []int, isPacked bool, pa
 			length, lenOffset := protowire.ConsumeVarint(buf[tagOffset:])
 			newLength := int(length) + diffLen
 			newBytes = protowire.AppendVarint(newBytes, uint64(newLength))
-			// length == 0 means had been deleted all the data in the field
-			if newLength == 0 {
+			// a packed list that lost all its elements disappears with its tag,
+			// an empty message stays: it is present and has length 0
+			removed := newLength == 0 && previousType == proto.LIST
+			if removed {
 				newBytes = newBytes[:0]
 			}
 
@@ -633,7 +635,7 @@ func (self *Value) updateByteLen(originLen int, address []int, isPacked bool, pa
 
 			// split length
 			srcHead := rt.AddPtr(self.v, uintptr(addressPtr+tagOffset))
-			if newLength == 0 {
+			if removed {
 				// delete tag
 				srcHead = rt.AddPtr(self.v, uintptr(addressPtr))
 				subLen -= tagOffset
